@@ -35,7 +35,7 @@ PROPS = {
     },
     'C11': {
         'level': 'proof',
-        'verus': ['c11-loops', 'c11-buffer', 'c11-mem'],
+        'verus': ['c11-loops', 'c11-buffer', 'c11-mem', 'c11-bufio'],
         'kani': ['io'],
         'explanation': 'Verus proves, on the synchronous projection of the real helper bodies (macros expanded), that read_exact(_at), '
                        'read_to_end(_at), append, write_all(_at) transfer exactly the reference bytes for EVERY schedule of short '
